@@ -6,6 +6,7 @@ NEXT Next
 CONSTANTS
   Algo = "fixed"
   SeedCopyreg = "live"
+  InitGuard = FALSE
   Scns = {}
 INVARIANT TypeOK
 INVARIANT Inv_FreshStart
